@@ -78,7 +78,7 @@ impl Proxy {
             .arg(std::env::var("VERIF_PROXY_LOG").unwrap_or_else(|_| "warn".into()))
             .current_dir(&dir)
             .stdin(Stdio::null())
-            .stdout(Stdio::null())
+            .stdout(logf.try_clone().map(Stdio::from).unwrap_or_else(|_| Stdio::null()))
             .stderr(Stdio::from(logf))
             .spawn()
             .map_err(|e| format!("spawn {}: {}", repo_bin().display(), e))?;
